@@ -41,17 +41,17 @@ func (s *c19FakeStream) Read(b []byte) (int, error) {
 	}
 	return s.in.Read(b)
 }
-func (s *c19FakeStream) Write(b []byte) (int, error)           { return s.out.Write(b) }
-func (s *c19FakeStream) Close() error                          { s.closed++; return nil }
-func (s *c19FakeStream) CancelRead(c quic.StreamErrorCode)     { s.cancelRead = append(s.cancelRead, c) }
-func (s *c19FakeStream) CancelWrite(c quic.StreamErrorCode)    { s.cancelWrite = append(s.cancelWrite, c) }
-func (s *c19FakeStream) StreamID() quic.StreamID               { return 0 }
-func (s *c19FakeStream) Context() context.Context              { return context.Background() }
-func (s *c19FakeStream) SetDeadline(time.Time) error           { return nil }
-func (s *c19FakeStream) SetReadDeadline(time.Time) error       { return nil }
-func (s *c19FakeStream) SetWriteDeadline(time.Time) error      { return nil }
-func (s *c19FakeStream) SendDatagram([]byte) error             { return nil }
-func (s *c19FakeStream) QUICStream() *quic.Stream              { return nil }
+func (s *c19FakeStream) Write(b []byte) (int, error)        { return s.out.Write(b) }
+func (s *c19FakeStream) Close() error                       { s.closed++; return nil }
+func (s *c19FakeStream) CancelRead(c quic.StreamErrorCode)  { s.cancelRead = append(s.cancelRead, c) }
+func (s *c19FakeStream) CancelWrite(c quic.StreamErrorCode) { s.cancelWrite = append(s.cancelWrite, c) }
+func (s *c19FakeStream) StreamID() quic.StreamID            { return 0 }
+func (s *c19FakeStream) Context() context.Context           { return context.Background() }
+func (s *c19FakeStream) SetDeadline(time.Time) error        { return nil }
+func (s *c19FakeStream) SetReadDeadline(time.Time) error    { return nil }
+func (s *c19FakeStream) SetWriteDeadline(time.Time) error   { return nil }
+func (s *c19FakeStream) SendDatagram([]byte) error          { return nil }
+func (s *c19FakeStream) QUICStream() *quic.Stream           { return nil }
 func (s *c19FakeStream) ReceiveDatagram(context.Context) ([]byte, error) {
 	return nil, io.EOF
 }
